@@ -157,6 +157,32 @@ fn main() {
                 rep.wall_s
             );
         }
+        "scale-probe" => {
+            // crash triage: runs every scale input one after the other on a thread with the
+            // default 2 MiB stack, announcing each index first, so that a process killed by a
+            // signal (stack overflow, abort) leaves the index of the input that did it
+            let tier = if args.get(2).map(String::as_str) == Some("thorough") { spaces::Tier::Thorough } else { spaces::Tier::Quick };
+            let only: Option<usize> = arg_value(&args, "--print").and_then(|s| s.parse().ok());
+            let items = props::scale_inputs(tier);
+            if let Some(i) = only {
+                let mut buf = String::new();
+                props::make_scale_pub(&items[i], &mut buf);
+                println!("{}", serde_json::to_string(&buf).unwrap());
+                return;
+            }
+            let h = std::thread::spawn(move || {
+                use std::io::Write;
+                for (i, it) in items.iter().enumerate() {
+                    println!("PROBE {i}");
+                    let _ = std::io::stdout().flush();
+                    let mut buf = String::new();
+                    props::make_scale_pub(it, &mut buf);
+                    let _ = view::run_lexer(&buf);
+                }
+                println!("PROBE done");
+            });
+            let _ = h.join();
+        }
         "scale-times" => {
             // ad-hoc: time every scale input under one property's oracle
             let prop: &'static str = Box::leak(args.get(2).cloned().unwrap_or_else(|| "C02".into()).into_boxed_str());
